@@ -118,6 +118,30 @@ def _work(item):
         if not (Lc / (1.02 * r) - 1 <= len(segs) <= Lc / (0.88 * r) + 2):
             out.append((f"{shape}:segment-count-not-proportional:after-set_resolution", f"circle R{R}: resolution changed {r1} -> {r} on a live builder, {len(segs)} segments for length {Lc:.6g}", rp))
         return out, len(segs)
+    if kind == "after-other-shape":
+        # a different (variable-speed, longer) shape is traced first on the same builder: nothing of it may leak into the next trace
+        olabel, obuilder = other_shapes()[idx]
+        R = 3.0
+        run = TraceRun(START, mode, direction, resolution, dp=8, units=units)
+        r = float(run.st.g.state.resolution)
+        shape0, args0, exp0 = obuilder(START, direction)
+        exc0, verts0 = run.trace(shape0, args0, start=START)
+        p0 = tuple(exp0["end"])
+        shape, args, exp = c10.circle_case(p0, direction, R, 60)
+        exc, verts = run.trace(shape, args, start=p0)
+        rp = {"kind": kind, "index": idx, "label": f"{olabel} then circle R{R}", "resolution": resolution, "direction": direction, "mode": mode, "units": units}
+        if exc0 is not None or exc is not None:
+            return [(f"{shape}:raised", f"{olabel} then circle: {exc0!r} / {exc!r}", rp)], 0
+        pts = [p0] + verts
+        segs = [dist(pts[i], pts[i + 1]) for i in range(len(verts))]
+        Lc = TWO_PI * R
+        if not segs or max(segs) > 1.02 * r + 1e-5:
+            out.append((f"{shape}:segment-longer-than-resolution:after-another-shape", f"circle R{R} traced after {olabel}: longest segment {max(segs) if segs else None} at resolution {r}", rp))
+        if not (Lc / (1.02 * r) - 1 <= len(segs) <= Lc / (0.88 * r) + 2):
+            out.append((f"{shape}:segment-count-not-proportional:after-another-shape", f"circle R{R} traced after {olabel}: {len(segs)} segments for length {Lc:.5g} at resolution {r}", rp))
+        if segs and dist(pts[-1], p0) > 1e-5:
+            out.append((f"{shape}:does-not-close:after-another-shape", f"circle R{R} traced after {olabel} ends at {pts[-1]} instead of {p0}", rp))
+        return out, len(segs)
     # monotonicity: halving the resolution never yields fewer segments
     label, builder = other_shapes()[idx] if kind == "mono-other" else (constant_speed_cases(tier)[idx][0], constant_speed_cases(tier)[idx][1])
     counts = []
@@ -154,6 +178,9 @@ def run(tier, seed):
         if label.startswith("circle"):
             items.append(("live-change", idx, min(R, 2.0), "clockwise", "absolute", None, tier))
             items.append(("live-change", idx, min(R, 2.0), "counter", "relative", None, tier))
+    for idx, _ in enumerate(other_shapes()):
+        items.append(("after-other-shape", idx, 0.25, "clockwise", "absolute", None, tier))
+        items.append(("after-other-shape", idx, 0.1, "counter", "relative", None, tier))
     for idx, _ in enumerate(other_shapes()):
         for r in (2.0, 0.5):
             items.append(("mono-other", idx, r, "counter", "absolute", None, tier))
